@@ -31,6 +31,7 @@ class E3Config:
     die_exit0: bool = False
     liveness_choice: bool = True
     monitor: bool = False
+    linger: tuple = ()               # nodes whose worker process never exits by itself after sending its result
 
     def to_json(self):
         d = asdict(self)
@@ -41,7 +42,7 @@ class E3Config:
     def from_json(d):
         return E3Config(base=e2.Config.from_json(d['base']), backend=d['backend'], max_workers=d['max_workers'],
                         cpu_count=d['cpu_count'], log_mode=d['log_mode'], die_exit0=d['die_exit0'],
-                        liveness_choice=d.get('liveness_choice', True), monitor=d.get('monitor', False))
+                        liveness_choice=d.get('liveness_choice', True), monitor=d.get('monitor', False), linger=tuple(d.get('linger', ())))
 
     def brief(self):
         b = self.base.brief()
@@ -50,6 +51,8 @@ class E3Config:
             b['die_exit0'] = True
         if self.monitor:
             b['displays'] = 'on'
+        if self.linger:
+            b['linger'] = self.linger
         return b
 
     @property
@@ -74,7 +77,8 @@ class Obs3(e2.Obs):
     gt: list = field(default_factory=list)     # ground-truth violations [(prop, key, msg)]
 
 
-def run_once_e3(cfg: E3Config, chooser: Chooser, *, world_hook=None, around_run=None, terminate_choice=False, threaded=False) -> Obs3:
+def run_once_e3(cfg: E3Config, chooser: Chooser, *, world_hook=None, around_run=None, terminate_choice=False, threaded=False,
+                storage_hook=None) -> Obs3:
     base = cfg.base
     spec = base.spec
     ctx = dict(base.context) if base.context is not None else None
@@ -88,6 +92,7 @@ def run_once_e3(cfg: E3Config, chooser: Chooser, *, world_hook=None, around_run=
     world = VWorld(chooser, cpu_count=cfg.cpu_count, log_mode=cfg.log_mode,
                    die_labels=[spec.labels[i] for i in base.died], die_exit0=cfg.die_exit0,
                    liveness_choice=cfg.liveness_choice, terminate_choice=terminate_choice, threaded=threaded)
+    world.linger_labels = frozenset(spec.labels[i] for i in cfg.linger)
     want_method = cfg.backend
     backend_events: list = []
 
@@ -112,6 +117,9 @@ def run_once_e3(cfg: E3Config, chooser: Chooser, *, world_hook=None, around_run=
                     gt.append(('C02', 'process-start-before-dep', f'process for {k} started before dependency {kj} finished'))
         if w.interrupted:
             gt.append(('C14', 'start-after-interrupt', f'process for {k} started after the interrupt'))
+        if not base.cof and any(ev[0] == 'close' for ev in backend_events):
+            # continue_on_failure=False: the coordinator has raised and is closing the runner
+            gt.append(('C10', 'start-after-raise', f'process for {k} started after the failure made run_tasks raise (while the runner was being closed)'))
 
     def on_rest(w: VWorld):
         if w.interrupted:
@@ -120,7 +128,8 @@ def run_once_e3(cfg: E3Config, chooser: Chooser, *, world_hook=None, around_run=
         yielded = {ev[1] for ev in backend_events if ev[0] == 'yield'}
         occupying = [c for c in w.children
                      if c.state == 'running' and not c.result_consumed
-                     or (c.state != 'running' and not c.result_consumed and c.death_observed_round in (None, w.round))]
+                     or (c.state != 'running' and not c.result_consumed and not w.infinite_wait
+                         and c.death_observed_round in (None, w.round))]
         started = {c.task_key for c in w.children}
         demand = 0
         for tname in set(spec.types):
@@ -150,6 +159,8 @@ def run_once_e3(cfg: E3Config, chooser: Chooser, *, world_hook=None, around_run=
     orig_rol = lt_process.run_or_load_task
     try:
         precache(storage, spec, built, base.precached, ctx)
+        if storage_hook is not None:
+            storage_hook(storage, built)
         U.WORLD.reset(epoch=1, faults=[spec.labels[i] for i in base.faults], fault_exc=base.fault_exc,
                       emit={spec.labels[i]: pat for i, pat in base.emit})
         with Patched(world):
